@@ -196,7 +196,7 @@ func (b *Buffer) ServeHTTP(w http.ResponseWriter, req *http.Request) {
 		}
 
 		var reader multibuf.MultiReader
-		if bw.expectBody(outReq) {
+		if bw.wroteBody && bw.expectBody(outReq) {
 			rdr, err := writer.Reader()
 			if err != nil {
 				b.log.Error("vulcand/oxy/buffer: failed to read response, err: %v", err)
@@ -264,6 +264,7 @@ type bufferWriter struct {
 	buffer         multibuf.WriterOnce
 	responseWriter http.ResponseWriter
 	hijacked       bool
+	wroteBody      bool
 	writeError     error
 	log            utils.Logger
 }
@@ -299,6 +300,7 @@ func (b *bufferWriter) Header() http.Header {
 }
 
 func (b *bufferWriter) Write(buf []byte) (int, error) {
+	b.wroteBody = true
 	length, err := b.buffer.Write(buf)
 	if err != nil {
 		// Since go1.11 (https://github.com/golang/go/commit/8f38f28222abccc505b9a1992deecfe3e2cb85de)
